@@ -16,7 +16,7 @@ RULE = ("(a) all 120 permutations of the five required columns on a fixed 2-seas
         "combined with a rotating index / extra-column variant); (b) Hypothesis: generated configurations (calendar and thermal "
         "crops, 1-2 seasons) x generated re-presentations of the weather table: column permutation, 0-3 unrelated columns "
         "(numeric, integer, string, datetime) at any position, re-indexing (shifted integers, dates, reversed labels, string "
-        "labels; rows stay in date order), extra leading / trailing rows with absurd values, float32 round trip excluded. Oracle: "
+        "labels, REPEATED labels as after concatenating yearly tables, one constant label; rows stay in date order), extra leading / trailing rows with absurd values, float32 round trip excluded. Oracle: "
         "all three daily tables and the summary bitwise equal to the run on the canonical table. One evaluation per pair. "
         "Non-trivial pair: the transformation moves at least one required column to another position; distinct = (configuration, "
         "transformation).")
@@ -46,7 +46,7 @@ def xforms(draw):
     for j in range(draw(st.integers(0, 3))):
         ops.append(dict(op="extra", kind=draw(st.sampled_from(["num", "int", "str", "date"])), pos=draw(st.integers(0, 8)), name="extra%d" % j))
     if draw(st.integers(0, 9)) < 6:
-        ops.append(dict(op="index", kind=draw(st.sampled_from(["shift", "date", "rev", "str"])), by=draw(st.integers(1, 5000))))
+        ops.append(dict(op="index", kind=draw(st.sampled_from(["shift", "date", "rev", "str", "dup", "dup", "const"])), by=draw(st.sampled_from([1, 2, 7, 30, 365, 366, 5000]))))
     if not ops:
         ops.append(dict(op="perm", order=[4, 3, 2, 1, 0]))
     return ops
@@ -64,6 +64,7 @@ def strategy(tier):
 def fixed_cases(tier):
     out = []
     extras = [None, dict(op="index", kind="rev"), dict(op="extra", kind="str", pos=0, name="junk"), dict(op="index", kind="date"),
+              dict(op="index", kind="dup", by=365), dict(op="index", kind="const"),
               dict(op="extra", kind="num", pos=2, name="junk2"), dict(op="pad", before=30, after=30, value=99.0)]
     for i, perm in enumerate(itertools.permutations([0, 1, 2, 3, 4])):
         ops = [dict(op="perm", order=list(perm))]
